@@ -1,6 +1,7 @@
 package persist
 
 import (
+	"flag"
 	"fmt"
 	"os"
 	"slices"
@@ -167,7 +168,8 @@ func TestC21(t *testing.T) {
 		return
 	}
 	totalChecks := 0
-	rt.Check(t, rec, "invariants", 800, 10000, func(t *rapid.T) {
+	flag.Set("rapid.shrinktime", "5s") // rapid cannot shrink these interactive histories much; TestMinimize does
+	rt.Check(t, rec, "invariants", 600, 5000, func(t *rapid.T) {
 		jr.reset()
 		c, err := newC21Case(rec, jr, dbgen.HeapOpener(8192))
 		if err != nil {
